@@ -6,7 +6,7 @@
 From Coq Require Import ZArith List Bool Permutation.
 From Coq Require PrimFloat.
 From Centro Require Import Base.Sx Base.PropFloat Model.PropHeap Model.Propagate Spec.PropSpec Spec.PropCheck
-     Proofs.PropPotential Proofs.PropGrid Proofs.PropKey Proofs.PropHeapInv Proofs.PropHeapKey Proofs.PropDijkstra Proofs.PropFuel Proofs.PropLabels.
+     Proofs.PropPotential Proofs.PropGrid Proofs.PropKey Proofs.PropHeapInv Proofs.PropHeapKey Proofs.PropDijkstra Proofs.PropFuel Proofs.PropLabels Proofs.PropFloatMono Proofs.PropOptimal Proofs.PropOptimalClosed.
 Import ListNotations.
 Open Scope Z_scope.
 
@@ -74,6 +74,23 @@ Theorem C03_prop_check_b64_sound :
     Spec_b64 m n image labels mask weight lo dist.
 Proof. exact prop_check_b64_sound. Qed.
 Print Assumptions C03_prop_check_b64_sound.
+
+(* that premise, proved: PrimFloat.add is tied to the IEEE-754 specification by Coq's FloatAxioms
+   (add_spec, Prim2SF_valid, SF2Prim_Prim2SF, Prim2SF_SF2Prim; through Flocq's add_equiv), rounding is
+   monotone (Flocq round_le), bit patterns of non-negative doubles are ordered as their values
+   (Bcompare_correct).  Print Assumptions lists those four axioms and the axioms of Coq's classical
+   real numbers (classic, sig_forall_dec, sig_not_dec, functional_extensionality_dep). *)
+Theorem C03_b64_add_monotone :
+  forall a b c, ok64 a -> ok64 b -> ok64 c -> a <= b -> plus64 a c <= plus64 b c.
+Proof. exact b64_add_monotone_proved. Qed.
+Print Assumptions C03_b64_add_monotone.
+
+(* hence the binary64 instance of the checker is sound with no premise left *)
+Theorem C03_prop_check_b64_sound_closed : forall m n image labels mask weight lo dist hint,
+  prop_check_b64 m n image labels mask weight lo dist hint = true ->
+  Spec_b64 m n image labels mask weight lo dist.
+Proof. exact prop_check_b64_sound_closed. Qed.
+Print Assumptions C03_prop_check_b64_sound_closed.
 
 (* the grid's neighbour lists are exactly 8-connectivity *)
 Theorem C03_grid_8_connected : forall m n v u, In v (coords m n) ->
@@ -170,11 +187,33 @@ Theorem C03_fuel_sufficient : forall key image labels mask m n weight,
 Proof. exact fuel_sufficient. Qed.
 Print Assumptions C03_fuel_sufficient.
 
+(* --- optimality of the loop with a strictly order-reflecting key ------------------------------ *)
+(* dijkstra_optimal_full64: for every input (labels >= 0, every step cost a non-negative double or
+   +inf, i.e. no NaN from the image), the Full64-key model's output is the geodesic optimum in the
+   code's own arithmetic: for every non-seed pixel v, (1) its distance is a lower bound of the cost
+   of EVERY mask path from EVERY masked seed (cost folded as the code folds it, step + accumulated,
+   binary64; order = order of bit patterns = numeric order), (2) if it has a distance there is a real
+   path of bit-identical cost from a seed carrying the reported label, (3) otherwise it is -1.
+   Layers (Proofs/PropOptimal.v): popped keys non-decreasing (kstar), finalised pixels frozen,
+   relaxation invariant i_nbr; binary64 facts from FloatAxioms via Flocq (Proofs/PropFloatFacts.v).
+   Example of the hypotheses: Proofs/PropOptimalClosed.v optimal_example. *)
+Theorem C03_dijkstra_optimal_full64 : forall image labels mask m n weight lo d,
+  shape labels m n ->
+  (forall v, inr m n v -> 0 <= labv labels v) ->
+  (forall u v, inr m n u -> inr m n v -> adj8 u v -> okF (stepF image m n weight u v)) ->
+  propagate Full64 image labels mask m n weight = Some (lo, d) ->
+  forall v, inr m n v -> labv labels v = 0 ->
+    let dv := get2 PrimFloat.zero d (fst v) (snd v) in
+    (forall x l, reachL image mask m n weight labels v x l -> okF dv /\ bitsD dv <= bitsD x) /\
+    (okF dv -> exists x, bitsD x = bitsD dv /\ reachL image mask m n weight labels v x (get2 0 lo (fst v) (snd v))) /\
+    (dv = neg_one \/ okF dv).
+Proof. exact dijkstra_optimal_full64. Qed.
+Print Assumptions C03_dijkstra_optimal_full64.
+
 (* --- optimality of the code as written: refuted by the faithful model (finding F7) ----------- *)
-(* dijkstra_optimal: "for every input the Dropped-key model's output passes prop_check" is FALSE;
-   the statement proved is its negation's witness.  dijkstra_optimal_partial (optimality of the
-   Full64-key loop for all inputs) is not proved: it needs the loop invariant "popped keys are
-   non-decreasing and every finalised distance is minimal", not attempted here. *)
+(* dijkstra_optimal for the key as written: "for every input the Dropped-key model's output passes
+   prop_check" is FALSE; the statement proved is its negation's witness (the Full64 key is optimal
+   for all inputs: C03_dijkstra_optimal_full64 above). *)
 Theorem C03_dijkstra_optimal_refuted :
   exists x, (exists lo d, run_sx x = Some (lo, d) /\
                           nth 0 (nth 4 d []) 0 = 4609434218613702657 /\
